@@ -419,6 +419,43 @@ func cloneAny(v any) any {
 	return v
 }
 
+// dagProbe counts Parse results in which some node is reachable along two paths.
+var dagProbe [zsimrt.MaxTasks + 1]uint64
+
+// sharesNodes reports whether an *Expression node is reachable twice in the tree.
+func sharesNodes(e *expr.Expression) bool {
+	seen := map[*expr.Expression]bool{}
+	var walk func(v any, depth int) bool
+	walk = func(v any, depth int) bool {
+		if depth > canonMaxDepth {
+			return false
+		}
+		switch x := v.(type) {
+		case *expr.Expression:
+			if x == nil {
+				return false
+			}
+			if seen[x] {
+				return true
+			}
+			seen[x] = true
+			return walk(x.Left, depth+1) || walk(x.Right, depth+1)
+		case []*expr.Expression:
+			for _, el := range x {
+				if walk(el, depth+1) {
+					return true
+				}
+			}
+		case *expr.RangeBoundary:
+			if x != nil {
+				return walk(x.Min, depth+1) || walk(x.Max, depth+1)
+			}
+		}
+		return false
+	}
+	return walk(e, 0)
+}
+
 // docBytes returns ONE byte slice per distinct JSON document of the current scenario,
 // shared by every task that decodes it (callers do keep request bodies around and
 // decode them from several goroutines). The library must only read it; runScenario
@@ -467,6 +504,9 @@ func doCall(op *Op, e *expr.Expression, canon func(func() string) string) (strin
 				return errText(err)
 			}
 			return canonFull(x)
+		}
+		if x != nil && sharesNodes(x) {
+			dagProbe[slotNow()]++ // reported as a probe, not judged: C14 does not say that Parse returns a tree
 		}
 		return canon(f), f
 	case KToPG:
